@@ -31,6 +31,7 @@ import (
 	"crypto"
 	"fmt"
 	"io"
+	"os"
 	"runtime"
 	"runtime/debug"
 	"sort"
@@ -679,6 +680,11 @@ func sortedTargets() []string {
 }
 
 func main() {
+	defer func() {
+		if tmpDir != "" {
+			os.RemoveAll(tmpDir)
+		}
+	}()
 	lib.Main(func(c lib.Case) (lib.Out, any) {
 		if c.S("kind") == "varint" {
 			return varintCase(c)
@@ -713,6 +719,8 @@ func main() {
 			deadline = 5000 * time.Millisecond
 		}
 
+		marks = map[string]int{}
+		calls = 0
 		var m0, m1 runtime.MemStats
 		runtime.ReadMemStats(&m0)
 		t0 := time.Now()
@@ -725,6 +733,10 @@ func main() {
 			"mallocs":   m1.Mallocs - m0.Mallocs,
 			"ms":        float64(el.Microseconds()) / 1000,
 			"input_len": total,
+		}
+		if res != "hang" && len(marks) > 0 { // after a hang the leaked goroutine may still write the map
+			extra["marks"] = marks
+			extra["calls"] = calls
 		}
 		switch res {
 		case "panic":
